@@ -3,7 +3,7 @@ CONSTANTS
   Classes = {"accept", "imm", "multi"}
   MaxTrig = 2
   MaxPoll = 3
-  FixDrvDrop = TRUE
+  FixDrvDrop = FALSE
 SPECIFICATION FairSpec
-INVARIANTS Safe NeverLeaked
-PROPERTIES Delivered
+INVARIANTS Safe
+PROPERTIES DeliveredModuloKnown
